@@ -84,6 +84,22 @@ def registry_snapshot():
     return {v: {cat: dict(mp) for cat, mp in maps.items()} for v, maps in registry.STIX2_OBJ_MAPS.items()}
 
 
+def registry_restore(snap):
+    """Put the registries back (after a change was reported): the verdict on a case must not depend on whether an earlier execution of
+    the same case already left its traces -- the search replays failing cases."""
+    from stix2 import registry
+    maps = registry.STIX2_OBJ_MAPS
+    for v in [v for v in maps if v not in snap]:
+        del maps[v]
+    for v, cats in snap.items():
+        cur = maps[v]
+        for cat in [c for c in cur if c not in cats]:
+            del cur[cat]
+        for cat, mp in cats.items():
+            cur[cat].clear()
+            cur[cat].update(mp)
+
+
 def make_junk(spec):
     """Depth-parameterised nesting built outside the JSON case (keeps replay files small)."""
     if isinstance(spec, dict) and "$nest" in spec:
@@ -252,6 +268,12 @@ def check_case(case):
             for _ in range(n):
                 inner_b = {"type": "bundle", "id": "bundle--3f2504e0-4f89-41d3-9a0c-0305e82c3301", "objects": [inner_b]}
             payload = json.dumps(inner_b) if as_text and n <= 900 else inner_b
+        elif where == "selector-deep":
+            # ... and here the selector addresses the INNERMOST value: the walk is abandoned at the bottom of the nesting
+            junk = make_junk({"$nest": n, "kind": kind})
+            sel = "x_deep" + (".[0]" if kind == "list" else ".a") * n
+            payload = dict(case["doc"], x_deep=junk, granular_markings=[{"marking_ref": "marking-definition--613f2e26-407d-48c7-9eca-b8e91df99dc9", "selectors": [sel]}])
+            payload = json.dumps(payload) if as_text and n <= 900 else payload
         elif where == "selector-walk":
             # a granular-marking selector is resolved by walking the whole object, deep custom content included
             junk = make_junk({"$nest": n, "kind": kind})
@@ -292,6 +314,7 @@ def check_case(case):
         fails = judge("parse", desc, res, exc, site=site)
         if registry_snapshot() != before:
             fails.append(("registry-changed", desc))
+            registry_restore(before)
         return fails
     if "doc" in case:
         payload = case["doc"]
@@ -310,8 +333,11 @@ def check_case(case):
     except _Timeout:
         return [("no-termination-within-60s", "%s did not return within 60 s for %s" % (entry, desc))]
     fails = judge(entry, desc, res, exc)
-    if registry_snapshot() != before:
-        fails.append(("registry-changed", "registries differ after %s on %s" % (entry, desc)))
+    after = registry_snapshot()
+    if after != before:
+        what = [v for v in after if v not in before] or [(v, c) for v in before for c in before[v] if after.get(v, {}).get(c) != before[v][c]]
+        fails.append(("registry-changed", "registries differ after %s on %s: %s" % (entry, desc, core.short(what, 200))))
+        registry_restore(before)
     if exc is None and res is not None and hasattr(res, "serialize"):
         _, exc2 = core.guarded(res.serialize)
         if exc2 is not None:
@@ -619,6 +645,37 @@ def run(ctx):
                             fails = check_case(case)
                             ctx.note(case, True, ["nesting:%d" % depth, "nest-input:constructor", "nest-site:%s/%s" % (host, where)])
                             ctx.handle(case, fails or [])
+    # the same sites on a fine grid of depths around the interpreter's recursion limit, each depth in interpreters of their own: near the
+    # limit a failure may be one the process does not survive (a stack overflow while a RecursionError is being handled, or while a
+    # deep chain of suspended generators is abandoned), which no in-process observation can report
+    import os
+    limit = __import__("sys").getrecursionlimit()
+    grid = sorted(set(range(limit - 500, limit + 151, 50 if ctx.quick else 10)) | {limit - 1, limit, limit + 1, limit + 49, limit + 51})
+    if ctx.worker is not None:
+        grid = grid[ctx.worker::int(os.environ.get("VERIF_WORKERS", "14"))]
+    sites = [("identity", "selector-deep"), ("identity", "selector-walk"), ("identity", "x_custom"), ("identity", "ext-content"), ("file-no-id", "ext-content"),
+             ("file-no-id", "hashes"), ("identity", "bundle-in-bundle"), ("marking", "definition")]
+    batches = []
+    for depth in grid:
+        batch = []
+        for kind in ("list", "dict"):
+            for host, where in sites if not ctx.quick else sites[:4]:
+                for as_text, via in ((False, None), (True, None), (False, "constructor")):
+                    if via and where in ("bundle-in-bundle",):
+                        continue
+                    nest = {"depth": depth, "kind": kind, "where": where, "text": as_text, "allow_custom": True}
+                    if via:
+                        nest["via"] = via
+                    batch.append({"nest": nest, "doc": hosts[host], "entry": "constructor" if via else "parse", "isolate": True})
+        batches.append(batch)
+    from concurrent.futures import ThreadPoolExecutor
+    with ThreadPoolExecutor(max_workers=8 if ctx.worker is None else 2) as pool:
+        results = list(pool.map(lambda b: core.isolated_batch("C17", b), batches))
+    for batch, res in zip(batches, results):
+        for case, fails in zip(batch, res):
+            n = case["nest"]
+            ctx.note(case, True, ["isolated-nesting:%d" % (n["depth"] // 100 * 100), "isolated-site:%s" % n["where"], "isolated-input:" + (n.get("via") or ("text" if n["text"] else "dict"))])
+            ctx.handle(case, fails or [])
     ctx.collect_only = False
 
 
@@ -661,4 +718,7 @@ def coverage_guided(ctx, runs):
 
 
 def replay(case):
+    import os
+    if case.get("isolate") and not os.environ.get("VERIF_ISOLATED_CHILD"):
+        return core.isolated_batch("C17", [case])[0]
     return check_case(case) or []
